@@ -4,6 +4,7 @@ package checks
 import (
 	"bytes"
 	"fmt"
+	"strings"
 	"time"
 
 	"rcproxy/core/zz_verif/explore"
@@ -318,6 +319,61 @@ func reqAt(c *world.Client, j int) []byte {
 		return c.Spec.Reqs[j]
 	}
 	return nil
+}
+
+// SlowMultiFlush: a slow reader and several replies released by ONE vectored write: the head request of the pipeline is
+// answered last (its node answers only after a clock tick), so the replies of the requests behind it are complete and
+// queued when it completes; the write of the whole batch is then answered short / EAGAIN by the write oracle.
+// sizes: payload sizes of the three replies (head first).
+func SlowMultiFlush(name string, sizes [3]int, bound int) *world.Scenario {
+	sc := &world.Scenario{Nodes: T3m(), Bound: bound, Family: "slow-multi-flush", Horizon: 400, WriteOracle: true, WriteCap: 64,
+		Ticks: []time.Duration{time.Millisecond}}
+	ka, kb, kb2 := keysA[0], keysB[0], keysB[1]
+	mk := func(k string, j, sz int) Req {
+		r := GetReq(k)
+		r.Expect = world.Bulk(fmt.Sprintf("%c", 'a'+j) + strings.Repeat(fmt.Sprintf("%d", j), sz))
+		return r
+	}
+	reqs := []Req{PingReq(), mk(ka, 0, sizes[0]), mk(kb, 1, sizes[1]), mk(kb2, 2, sizes[2])}
+	replyOf := map[string][]byte{ka: reqs[1].Expect, kb: reqs[2].Expect, kb2: reqs[3].Expect}
+	cs := ClientOf(reqs, false)
+	cs.Chunks = []world.Chunk{{Data: reqs[0].Bytes}, {Data: append(append(append([]byte{}, reqs[1].Bytes...), reqs[2].Bytes...), reqs[3].Bytes...), WaitReplies: 1}}
+	cs.Slow = true
+	sc.Clients = []world.ClientSpec{cs}
+	sc.Reply = func(w *world.World, bc *world.BConn, args [][]byte) ([]byte, int) {
+		if len(args) > 1 {
+			if r, ok := replyOf[string(args[1])]; ok {
+				if string(args[1]) == ka {
+					return r, 1 // the head request's node answers after the tick
+				}
+				return r, 0
+			}
+		}
+		return nil, 0
+	}
+	// the clock only moves once the other replies have been read by the proxy
+	sc.TickGate = func(w *world.World) bool {
+		n := 0
+		for _, bc := range w.BConns {
+			for i, rec := range bc.Log {
+				if len(rec.Args) > 1 && (string(rec.Args[1]) == kb || string(rec.Args[1]) == kb2) && bc.ReadByProxy(i) {
+					n++
+				}
+			}
+		}
+		return n == 2
+	}
+	sc.Name = fmt.Sprintf("%s/slow-multi-flush/replies%v/d%d", name, sizes, bound)
+	sc.Check = func(w *world.World) []world.Violation {
+		vs := CheckStreams(w, StreamOpts{})
+		for i := range vs {
+			if vs[i].Sig == "corrupt" || vs[i].Sig == "forwarded-swap" {
+				vs[i].Sig = "slow-reader-stream-corrupt"
+			}
+		}
+		return vs
+	}
+	return sc
 }
 
 // BackendsWellFormed: nothing a node would reject as a protocol error was received by any node.
